@@ -542,7 +542,6 @@ func runC11(c *kit.Ctx) {
 	}
 }
 
-
 // c11OpenSessions: a session is opened while the user holds the rights; the administrator then deletes the user,
 // deletes and re-creates it with narrower rights, or narrows it by update; requests on the ALREADY OPEN session
 // must follow the rights as last saved.
